@@ -68,7 +68,22 @@ def run(c):
         except Exception as e:     # re-raised in the main thread
             errs.append(e)
 
-    ths = [threading.Thread(target=gen, args=(k,)) for k in ("p", "b")]
+    def rel():
+        # implementation-shaped layer: sqlite tables + join query refine the abstract store
+        try:
+            c.mc("SegDBRel", "SegDBRel.cfg", workers=4, timeout=2400)
+            if c.thorough:
+                r = c.tlc("SegDBRel", "SegDBRelNoFK.cfg", workers=4, timeout=1200)
+                if "Represents" in r.inv_violated or "QueriesAgree" in r.inv_violated:
+                    c.notes.append("model-only counterexample (expected): without ON DELETE CASCADE a segment inserted "
+                                   "after a deletion inherits the deleted row's types/groups/interfaces "
+                                   "(the defect found in /repo and fixed there)")
+                else:
+                    raise vlib.Infra("SegDBRelNoFK.cfg: expected counterexample not found")
+        except Exception as e:
+            errs.append(e)
+
+    ths = [threading.Thread(target=gen, args=(k,)) for k in ("p", "b")] + [threading.Thread(target=rel)]
     for t in ths:
         t.start()
     for t in ths:
